@@ -30,6 +30,7 @@ def run(check: Check, repo: Repo, tier: str) -> None:
     K.sibling_details(check, repo)
     K.field_requiredness(check, repo)
     K.variable_arm(check, repo)
+    K.undefined_never_completes(check, repo)
     K.int_atoms(check, repo)
     K.domain_guards(check, repo, INPUT_ROLES)
     check.floor("DOMAIN-GUARDS", 6, "input coercers and helpers")
